@@ -30,6 +30,10 @@ FIXED_MIN = [3600, -3600, 7200, 19800, -12600, 45900, 50400, -43200, 86340, -863
 FIXED_SEC = [1, -1, 3601, 5 * 3600 + 30 * 60 + 17, -(3 * 3600 + 29 * 60 + 59), 86399, -86399, 1172, -2670, 59, -59]
 
 FORMS = ("obj", "ftobj", "iso", "isobytes", "epoch_int", "epoch_float")
+# all-digit TEXT of assorted lengths (str or bytes): only the 8-digit one is ISO 8601 (basic date); for the others the
+# stdlib parser is the reference: when it refuses the text nothing is demanded of the value
+DIGIT_TEXTS = ["2024", "202401", "20240101", "19691231", "00010101", "99991231", "1700000000", "20240101120000", "0", "1", "2024010", "202401011",
+               "19700101", "20380119", "00000000", "12345678"]
 ISO_TZ_SPELLINGS = ("colon", "nocolon")  # +hh:mm[:ss] / +hhmm[ss]
 
 
@@ -149,6 +153,8 @@ def gen_spec(rng, form=None, want=None):
     form = form or rng.choice(FORMS)
     if form in ("epoch_int", "epoch_float"):
         return _gen_epoch(rng, form, want)
+    if form in ("iso", "isobytes") and rng.random() < 0.06:
+        return {"form": "digits", "text": rng.choice(DIGIT_TEXTS), "bytes": form == "isobytes"}
     c = _rand_components(rng)
     tz = _rand_tz(rng)
     fold = rng.choice([0, 0, 1])
@@ -200,6 +206,28 @@ def gen_spec(rng, form=None, want=None):
             c[6] = 0
         spec["tzs"] = rng.choice(ISO_TZ_SPELLINGS)
         spec["z"] = bool(tz == ["utc"] and rng.random() < 0.6)
+        # ISO 8601 spelling family: extended (default), basic (no separators), date only, week dates
+        style = rng.choice(["ext", "ext", "ext", "basic", "basic", "date-basic", "date-basic", "date-ext", "week-ext", "week-basic"])
+        if style in ("week-ext", "week-basic"):
+            iy = _dt.date(c[0], c[1], c[2]).isocalendar()[0]
+            if not 1 <= iy <= 9999:
+                style = "ext"
+        if style in ("date-basic", "date-ext") or (style.startswith("week") and rng.random() < 0.5):
+            # no time part: midnight, no offset (naive => UTC)
+            c[3:] = [0, 0, 0, 0]
+            spec["tz"] = None
+            spec["fd"] = 0
+            spec["notime"] = True
+        if style == "basic":
+            spec["sep"] = "T"
+            spec["tzs"] = "nocolon"
+        if style == "week-ext":
+            spec["sep"] = "T"
+            spec["tzs"] = "colon"
+        if style == "week-basic":
+            spec["sep"] = "T"
+            spec["tzs"] = "nocolon"
+        spec["style"] = style
     return spec
 
 
@@ -253,7 +281,18 @@ def _fmt_offset(secs, spelling):
 
 def render_iso(spec):
     y, mo, d, h, mi, s, us = spec["c"]
-    out = "%04d-%02d-%02d%s%02d:%02d:%02d" % (y, mo, d, spec["sep"], h, mi, s)
+    style = spec.get("style", "ext")
+    if style in ("week-ext", "week-basic"):
+        iy, iw, iwd = _dt.date(y, mo, d).isocalendar()[:3]
+        date = ("%04d-W%02d-%d" if style == "week-ext" else "%04dW%02d%d") % (iy, iw, iwd)
+    elif style in ("basic", "date-basic"):
+        date = "%04d%02d%02d" % (y, mo, d)
+    else:
+        date = "%04d-%02d-%02d" % (y, mo, d)
+    if spec.get("notime"):
+        return date
+    basic = style in ("basic", "week-basic")
+    out = date + spec["sep"] + (("%02d%02d%02d" if basic else "%02d:%02d:%02d") % (h, mi, s))
     fd = spec["fd"]
     if fd:
         digits = "%06d" % us
@@ -266,9 +305,27 @@ def render_iso(spec):
     return out + _fmt_offset(tz[1], spec["tzs"])
 
 
+def stdlib_reference(spec):
+    """What this Python's datetime.fromisoformat makes of the text (naive => UTC), as an observation; None when the
+    stdlib does not accept the spelling (then the text is outside the ISO class of this interpreter)."""
+    if spec["form"] == "digits":
+        text = spec["text"]
+    else:
+        text = render_iso(spec)
+    try:
+        v = _dt.datetime.fromisoformat(text)
+    except ValueError:
+        return None
+    if v.tzinfo is None:
+        v = v.replace(tzinfo=UTC)
+    return observe_dt(v)
+
+
 def build(spec, ftmod=None):
     """-> the Python object handed to the library.  `ftmod` = flow.record.fieldtypes, needed only for form 'ftobj'."""
     form = spec["form"]
+    if form == "digits":
+        return spec["text"].encode("ascii") if spec["bytes"] else spec["text"]
     if form == "epoch_int":
         return spec["n"]
     if form == "epoch_float":
@@ -288,6 +345,9 @@ def build(spec, ftmod=None):
 def expected(spec, obj=None):
     """-> list of acceptable observations [y,mo,d,h,mi,s,us,off_us] for the field value built from this input."""
     form = spec["form"]
+    if form == "digits":
+        ref = stdlib_reference(spec)
+        return [ref] if ref is not None else None  # None: nothing demanded (the library may refuse the text)
     if form == "epoch_int":
         return [us_to_wall(spec["n"] * 10**6) + [0]]
     if form == "epoch_float":
@@ -324,6 +384,8 @@ def tzkind(spec):
     form = spec["form"]
     if form.startswith("epoch"):
         return "epoch"
+    if form == "digits":
+        return "digits-%d" % len(spec["text"])
     tz = spec["tz"]
     if tz is None:
         return "naive"
@@ -349,12 +411,25 @@ WANTS = (None, None, None, "fold", "gap", "lmt", "edge", "avro_threshold")
 
 
 def make_specs(rng, n):
-    """`n` specs cycling through the input forms and the biased datetime families."""
+    """`n` specs cycling through the input forms and the biased datetime families.  Only inputs with a defined
+    expectation (all-digit texts the stdlib parser refuses are drawn again; see make_undefined_texts)."""
     out = []
-    for i in range(n):
+    i = 0
+    while len(out) < n:
         form = FORMS[i % len(FORMS)] if rng.random() < 0.7 else rng.choice(FORMS)
+        i += 1
         want = rng.choice(WANTS)
         if want in ("fold", "gap", "lmt") and form not in ("obj", "ftobj"):
             form = rng.choice(["obj", "obj", "ftobj"])
-        out.append(gen_spec(rng, form, want))
+        sp = gen_spec(rng, form, want)
+        if expected(sp) is None:
+            continue
+        out.append(sp)
     return out
+
+
+def make_undefined_texts(rng, k):
+    """All-digit texts that this Python's ISO parser refuses: nothing is demanded of the value, only that an accepted
+    one is timezone-aware."""
+    pool = [t for t in DIGIT_TEXTS if stdlib_reference({"form": "digits", "text": t}) is None]
+    return [{"form": "digits", "text": rng.choice(pool), "bytes": rng.random() < 0.4} for _ in range(k)] if pool else []
